@@ -20,7 +20,7 @@ VERIF = os.path.dirname(os.path.dirname(os.path.abspath(__file__)))
 HARNESS = os.path.join(VERIF, "harness", "h_pybody.py")
 TOOL_TIMEOUT = 30
 CLASSES = ("body-compile:keyword-attribute-in-expression", "body-compile:keyword-rule-label", "body-compile:string-literal-quote-or-backslash",
-           "body-compile:binary-literal", "body-value:xor-right-nested", "body-value:integer-division", "body-value:real-literal-digits", "body-value:builtin-constant", "body-value:typeof-names")
+           "body-compile:binary-literal", "body-value:xor-right-nested", "body-value:integer-division", "body-value:real-literal-digits", "body-value:builtin-constant", "body-value:typeof-names", "body-value:logical-unknown-operand")
 
 
 def show(v):
@@ -31,7 +31,7 @@ TYPEOF_TRUE = ("FX_TYPEOF.E", "FX_TYPEOF.MID", "FX_TYPEOF.ROOT")     # ISO 10303
 
 
 def env_row(body, env):
-    return [env[a] for a in body.ints + body.bools]
+    return [env[a] for a in body.ints + body.bools + list(body.logicals)]
 
 
 def run_impl(b, work, body, envs):
@@ -46,7 +46,7 @@ def run_impl(b, work, body, envs):
         return {"status": "tool-timeout", "msg": f"no return within {TOOL_TIMEOUT} s"}
     if r.returncode != 0 or not os.path.exists(os.path.join(d, body.name + ".py")):
         return {"status": "exit-status", "msg": f"exp2python exited {r.returncode}: {r.stderr[-200:]!r}"}
-    spec = {"ent": body.ent, "ctor": body.ints + body.bools, "derived": [n for n, _, _ in body.derived],
+    spec = {"ent": body.ent, "ctor": body.ints + body.bools + list(body.logicals), "derived": [n for n, _, _ in body.derived],
             "rules": [lab for lab, _ in body.rules], "envs": [env_row(body, e) for e in envs]}
     json.dump(spec, open(os.path.join(d, "spec.json"), "w"))
     env = dict(os.environ); env["VERIF_REPO"] = B.REPO
@@ -105,6 +105,9 @@ def expected_value(kind, tree, env, spec_val):
         return "REAL:" + repr(float(tree[1]))
     if k == "typeof":
         return "true" if tree[1] in TYPEOF_TRUE else "false"
+    if k == "l3":
+        v = X.l3_value(tree, env)
+        return "unknown" if v == "U" else show(v)
     if k == "const":
         import math
         return {"PI": "REAL:" + repr(math.pi), "CONST_E": "REAL:" + repr(math.e), "UNKNOWN": "unknown", "?": "none"}[tree[1]]
@@ -222,6 +225,8 @@ def classify(o, body):
             return CLASSES[7]
         if any(x[0] == "typeof" for x in walk(t)):
             return CLASSES[8]
+        if any(x[0] == "l3" for x in walk(t)):
+            return CLASSES[9]
     return kind + ":" + body.express()
 
 
@@ -316,6 +321,28 @@ class BodyRunner:
         return out
 
 
+def logic_correspondence(ctx, exe, bodies, envs_of, res):
+    """the shape fx_logical: what the getters return for every operator and every pair of TRUE / FALSE / UNKNOWN must be the Lean
+    model's reading of Python (`m_c18 model`, `logic` lines), and the reference table must be the Lean specification's"""
+    enc = lambda v: "u" if v == "U" else ("t" if v else "f")
+    for bd, (o, c, im) in zip(bodies, res):
+        if bd.name != "fx_logical" or im.get("status") != "ok":
+            continue
+        lines, where = [], []
+        for n, _, t in bd.derived:
+            for ei, env in enumerate(envs_of[id(bd)]):
+                lines.append(f"logic {t[1]} {enc(env[t[2][1]])} {enc(env[t[3][1]]) if t[1] != 'not' else 't'}"); where.append((n, ei, t, env))
+        model, spec = run_lean(exe, "model", lines), run_lean(exe, "spec", lines)
+        for (n, ei, t, env), m, sp, ln in zip(where, model, spec, lines):
+            got = im["values"][ei][n]
+            if "value=" + got != m and not any(x[0].startswith("correspondence three-valued") for x in ctx.broken):
+                ctx.broken.append(("correspondence three-valued operators model vs the emitted getter", f"{ln}: getter {got}, model {m}"))
+            v = X.l3_value(t, env)
+            if "value=" + ("unknown" if v == "U" else show(v)) != sp and not any(x[0].startswith("reference disagreement (three") for x in ctx.broken):
+                ctx.broken.append(("reference disagreement (three-valued tables)", f"{ln}: {v} vs {sp}"))
+        ctx.cov["correspondence"]["three-valued-logic"] = {"probes": len(lines)}
+
+
 def run_bodies(ctx, b, exe, only=None, only_envs=None):
     quick = ctx.tier == "quick"
     if only is not None:
@@ -325,11 +352,12 @@ def run_bodies(ctx, b, exe, only=None, only_envs=None):
         bodies += [X.gen(ctx.rng, i) for i in range(60 if quick else 700)]
         bodies += [X.gen(ctx.rng, 5000 + i, p_kw=0.0, depth=4) for i in range(40 if quick else 500)]
         bodies += [X.gen(ctx.rng, 9000 + i, p_kw=0.0, broad=True) for i in range(20 if quick else 200)]
-    envs_of = {id(bd): X.environments(ctx.rng, bd, 6) for bd in bodies}
+    envs_of = {id(bd): (bd.fixed_envs or X.environments(ctx.rng, bd, 6)) for bd in bodies}
     if only is not None and only_envs:
         envs_of[id(only)] = only_envs
     run = BodyRunner(ctx, b, exe)
     res = run.evaluate(bodies, envs_of)
+    logic_correspondence(ctx, exe, bodies, envs_of, res)
     done, unclassified, first_c = set(), 0, None
     for bd, (o, c, im) in zip(bodies, res):
         ctx.count(1, key="body:" + bd.key())
@@ -351,14 +379,14 @@ def run_bodies(ctx, b, exe, only=None, only_envs=None):
         want = k0 if in_class else o[0]
 
         def fails(cand, _envs=envs_of[id(bd)], _in=in_class):
-            envs = [{a: e.get(a, 1) for a in cand.ints + cand.bools} for e in _envs]
+            envs = [{a: e.get(a, 1) for a in cand.ints + cand.bools + list(cand.logicals)} for e in _envs]
             r = BodyRunner(ctx, b, exe).evaluate([cand], {id(cand): envs})[0][0]
             if not r:
                 return None
             k = classify(r, cand)
             return k if _in else (None if k in CLASSES else r[0])
         m = shrink(fails, bd, want)
-        envs = [{a: e.get(a, 1) for a in m.ints + m.bools} for e in envs_of[id(bd)]]
+        envs = [{a: e.get(a, 1) for a in m.ints + m.bools + list(m.logicals)} for e in envs_of[id(bd)]]
         mo = BodyRunner(ctx, b, exe).evaluate([m], {id(m): envs})[0][0] or o
         done.add(k0)
         ctx.violation(k0 if in_class else classify(mo, m), mo[1], {"body": to_obj(m), "envs": envs, "schema": m.express(),
@@ -373,7 +401,7 @@ def run_bodies(ctx, b, exe, only=None, only_envs=None):
 
 def to_obj(b):
     return {"name": b.name, "ent": b.ent, "ints": b.ints, "bools": b.bools, "derived": b.derived, "rules": b.rules, "broad": b.broad,
-            "supers": list(b.supers)}
+            "supers": list(b.supers), "logicals": list(b.logicals), "fixed_envs": b.fixed_envs}
 
 
 def _tup(t):
@@ -384,6 +412,7 @@ def from_obj(o):
     b = X.Body(o["name"], o["ent"], list(o["ints"]), list(o["bools"]), [(n, ty, _tup(t)) for n, ty, t in o["derived"]],
                [(lab, _tup(t)) for lab, t in o["rules"]], o.get("broad", False))
     b.supers = [tuple(x) for x in o.get("supers", [])]
+    b.logicals, b.fixed_envs = list(o.get("logicals", [])), o.get("fixed_envs")
     return b
 
 
